@@ -195,8 +195,24 @@ func runC09(r *Run) {
 				return
 			}
 			desc := fmt.Sprintf("%s = %s", ty.String(), trunc(dumpValue(val.Interface()), 800))
+			tmplTy := ty
+			if ty.Kind() == reflect.Struct && ty.NumField() >= 2 && rng.P(1, 3) {
+				// a template that lacks one of the document's fields: its value is skipped by an ignoring builder
+				drop := rng.Intn(ty.NumField())
+				var fields []reflect.StructField
+				for i := 0; i < ty.NumField(); i++ {
+					if i != drop && ty.Field(i).PkgPath == "" {
+						fields = append(fields, ty.Field(i))
+					}
+				}
+				if len(fields) > 0 {
+					tmplTy = reflect.StructOf(fields)
+					desc = "narrow template (field " + ty.Field(drop).Name + " missing) " + desc
+					r.out.Count("template:narrower-struct")
+				}
+			}
 			if d, err := ce.MarshalToCBEDocument(val.Interface(), cfg); err == nil {
-				docs = append(docs, docT{"cbe", d, reflect.Zero(ty).Interface(), desc})
+				docs = append(docs, docT{"cbe", d, reflect.Zero(tmplTy).Interface(), desc})
 			}
 			switch ty.Kind() {
 			case reflect.Slice, reflect.Array, reflect.Map, reflect.Struct:
@@ -204,7 +220,7 @@ func runC09(r *Run) {
 					if d, err := ce.MarshalToCTEDocument(val.Interface(), cfg); err == nil && len(d) > 3 {
 						last := d[len(d)-1]
 						if last == ']' || last == '}' {
-							docs = append(docs, docT{"cte", d, reflect.Zero(ty).Interface(), desc})
+							docs = append(docs, docT{"cte", d, reflect.Zero(tmplTy).Interface(), desc})
 						}
 					}
 				}
@@ -247,6 +263,8 @@ func runC09(r *Run) {
 			if hi-lo > 120 {
 				step = (hi - lo) / 120
 			}
+			var prevPart interface{}
+			prevK, havePrev := 0, false
 			for k := lo; k < hi; k += step {
 				r.out.Count("cuts:" + dc.format)
 				part, perr, ppan := unm(dc.doc[:k])
@@ -267,6 +285,19 @@ func runC09(r *Run) {
 					r.out.Finding("C09", "partial-not-prefix:"+dc.format+":"+typed, fmt.Sprintf("cut at byte %d of %d: the partial result is not a prefix of the full value at %s", k, len(dc.doc), why),
 						dc.format+":"+docText(dc.format, dc.doc[:k])+" of "+docText(dc.format, dc.doc)+" partial="+trunc(dumpValue(part), 300)+" full="+trunc(dumpValue(full), 300))
 				}
+				// "elements and entries that were completely decoded are present": whatever an earlier cut
+				// already delivered was completely decoded there, so a later cut must deliver it too
+				// (seeded change C09A3 returned nil once a node or an ignored field was open)
+				// (CBE only: a CTE document cut inside a token may deliver a shorter complete token, which a
+				// later cut - inside an escape sequence, say - legitimately takes back)
+				if havePrev && !textMode {
+					leafSlack = 0
+					if ok, why := isPrefixValue(reflect.ValueOf(prevPart), reflect.ValueOf(part), "v"); !ok {
+						r.out.Finding("C09", "partial-loses-data:"+dc.format+":"+typed, fmt.Sprintf("cut at byte %d of %d delivers less than the cut at byte %d did (%s)", k, len(dc.doc), prevK, why),
+							dc.format+":"+docText(dc.format, dc.doc[:k])+" of "+docText(dc.format, dc.doc)+" partial="+trunc(dumpValue(part), 300)+" earlier="+trunc(dumpValue(prevPart), 300))
+					}
+				}
+				prevPart, prevK, havePrev = part, k, true
 			}
 			// model correspondence on a few cuts (CBE decoder alone)
 			if dc.format == "cbe" {
